@@ -381,6 +381,164 @@ def gen_load_cases(ctx):
     return cases
 
 
+# --- InputDataStorage: the real parsers on written YAML / list files
+
+def _stem(path):
+    return os.path.splitext(os.path.basename(path))[0]
+
+
+def yaml_doc(entries):
+    doc = [{"data format": "bam"}]
+    for e in entries:
+        d = {}
+        if e["name"] is not None:
+            d["name"] = e["name"]
+        if e["files"] is not None:
+            d["long read files"] = [f[0] for f in e["files"]]
+        if e["labels"] is not None:
+            d["labels"] = list(e["labels"])
+        if e["illumina"] is not None:
+            d["illumina bam"] = list(e["illumina"])
+        doc.append(d)
+    return doc
+
+
+def list_text(lines):
+    out = []
+    for l in lines:
+        if "header" in l:
+            out.append(("#" + l["header"]) if l["header"] else "")
+        else:
+            out.append(" ".join(f[0] for f in l["files"]) + ((":" + l["label"]) if l["label"] is not None else ""))
+    return "\n".join(out) + "\n"
+
+
+def impl_parse(scratch, kind, prefix, payload):
+    """the real InputDataStorage on a description file -> parsed samples (as the model prints them) or the error enum"""
+    vlib.repo_on_path()
+    import contextlib
+    import io
+    import yaml
+    from src.input_data_storage import InputDataStorage
+    _quiet()
+    d = tempfile.mkdtemp(dir=scratch)
+    path = os.path.join(d, "desc." + ("yaml" if kind == "yaml" else "txt"))
+    with open(path, "w") as f:
+        if kind == "yaml":
+            yaml.safe_dump(yaml_doc(payload), f)
+        else:
+            f.write(list_text(payload))
+    args = SimpleNamespace(fastq=None, bam=None, fastq_list=None, bam_list=path if kind == "list" else None,
+                           read_assignments=None, yaml=path if kind == "yaml" else None, prefix=prefix, labels=None,
+                           output=os.path.join(d, "out"), illumina_bam=None)
+    try:
+        with contextlib.redirect_stdout(io.StringIO()):
+            ids = InputDataStorage(args)
+    except SystemExit:
+        return {"error": "exit"}
+    except (KeyError, IndexError, TypeError, AttributeError) as ex:
+        return {"error": "error", "exc": type(ex).__name__}
+    return [{"name": smp.prefix, "libs": [list(lib) for lib in smp.file_list],
+             "readable": [[k, v] for k, v in smp.readable_names_dict.items()],
+             "illumina": None if smp.illumina_bam is None else list(smp.illumina_bam)} for smp in ids.samples]
+
+
+def gen_yaml_entry(rng, name, pool):
+    k = rng.choice([0, 1, 1, 1, 2, 3])
+    files = rng.sample(pool, k)
+    if files and rng.random() < 0.05:
+        files.append(files[0])                     # file used twice: exit
+    e = {"name": name, "files": [[f, _stem(f)] for f in files], "labels": None, "illumina": None}
+    if rng.random() < 0.05:
+        e["files"] = None                          # key absent: exit
+    if e["files"] is not None and rng.random() < 0.4:
+        n = len(e["files"]) if rng.random() < 0.9 else len(e["files"]) + 1
+        e["labels"] = ["lab%d_%s" % (i, name or "x") for i in range(n)]
+    if rng.random() < 0.5:
+        e["illumina"] = ["/data/short_%s_%d.bam" % (name or "x", i) for i in range(rng.randint(1, 2))]
+    return e
+
+
+def gen_parse_cases(ctx):
+    """YAML / list descriptions: 1-4 experiments with / without the optional keys, all orders of each drawn set;
+    mostly explicit distinct names (the domain of the theorem), plus missing / duplicate names"""
+    rng = ctx.rng
+    pool = ["/data/run%d/reads_%d.bam" % (i % 3, i) for i in range(8)]
+    cases = []
+    # the shape of the seeded change first: short reads in the first entry only, and the reverse
+    a = {"name": "E1", "files": [[pool[0], _stem(pool[0])]], "labels": None, "illumina": ["/data/short.bam"]}
+    b = {"name": "E2", "files": [[pool[1], _stem(pool[1])]], "labels": None, "illumina": None}
+    cases += [("yaml", "X", [a, b]), ("yaml", "X", [b, a])]
+    for _ in range(25 if ctx.tier == "quick" else 250):
+        k = rng.randint(1, 4)
+        names = ["E%d" % i for i in range(k)]
+        mode = rng.random()
+        if mode < 0.15:
+            names[rng.randrange(k)] = None
+        elif mode < 0.3 and k > 1:
+            names[1] = names[0]
+        elif mode < 0.35:
+            names[-1] = "X%d" % (k - 1)
+        entries = [gen_yaml_entry(rng, n, pool) for n in names]
+        perms = list(itertools.permutations(entries))
+        if len(perms) > 6:
+            perms = rng.sample(perms, 6)
+        for p in perms:
+            cases.append(("yaml", "X", list(p)))
+    for _ in range(60 if ctx.tier == "quick" else 600):
+        lines = []
+        if rng.random() < 0.85:
+            lines.append({"header": "S0"})
+        for i in range(rng.randint(1, 4)):
+            for _ in range(rng.choice([0, 1, 1, 2])):
+                fs = rng.sample(pool, rng.choice([1, 1, 2]))
+                lines.append({"files": [[f, _stem(f)] for f in fs], "label": rng.choice([None, None, "lab%d" % i])})
+            r = rng.random()
+            lines.append({"header": "" if r < 0.15 else ("S0" if r < 0.25 else ("X%d" % (i + 1) if r < 0.3 else "S%d" % (i + 1)))})
+        if rng.random() < 0.7:
+            fs = rng.sample(pool, 1)
+            lines.append({"files": [[f, _stem(f)] for f in fs], "label": None})
+        cases.append(("list", "X", lines))
+    return cases
+
+
+def parse_property(kind, prefix, payload):
+    """in-process, real parser: with explicit distinct names, every experiment of the joint description is parsed
+    exactly as from the description that holds this experiment only"""
+    scratch = tempfile.mkdtemp(prefix="isoverif_c10pp_")
+    try:
+        if kind == "yaml":
+            blocks = [[e] for e in payload]
+            names = [e["name"] for e in payload]
+        else:
+            blocks, names = [], []
+            for l in payload:
+                if "header" in l:
+                    blocks.append([l])
+                    names.append(l["header"])
+                elif blocks:
+                    blocks[-1].append(l)
+                else:
+                    return None                  # files before the first header: named by the prefix (outside the domain)
+        if any(not n for n in names) or len(set(names)) != len(names):
+            return None
+        joint = impl_parse(scratch, kind, prefix, payload)
+        alone = [impl_parse(scratch, kind, prefix, b) for b in blocks]
+        if vlib.is_err(joint) or any(vlib.is_err(a) for a in alone):
+            if vlib.is_err(joint) != any(vlib.is_err(a) for a in alone):
+                return "joint description %s, stand-alone descriptions %s" % (joint, alone)
+            return None
+        flat = [smp for a in alone for smp in a]
+        if joint != flat:
+            for x, y in zip(joint, flat):
+                if x != y:
+                    return "experiment %s: in the joint description %s, alone %s" % (x["name"], x, y)
+            return "joint %d experiments, alone %d" % (len(joint), len(flat))
+        return None
+    finally:
+        shutil.rmtree(scratch, ignore_errors=True)
+
+
 def strip_private(x):
     if isinstance(x, dict):
         return {k: strip_private(v) for k, v in x.items() if not k.startswith("_")}
@@ -573,6 +731,12 @@ def _lab_plans(ctx):
         {"id": "dups", "world": s % 1000 + 5, "cfg": {"data_type": "nanopore"},
          "specs": [E("D", s + 9, 0.4, 0, dups=8, depth=[6, 9]), E("F", s + 10, 0.4, 1, dups=3, depth=[6, 9])],
          "orders": "all", "threads": [1, 2], "yaml_orders": 1, "trace": True},
+        # YAML only: an experiment WITH per-experiment short reads (`illumina bam`, junctions 4 bp off the long-read
+        # junctions so that IlluminaExonCorrector really moves them; it acts in un-annotated regions: no --genedb)
+        # next to one WITHOUT
+        {"id": "illumina", "world": s % 1000 + 6, "cfg": {"data_type": "nanopore", "genedb": False},
+         "specs": [E("I", s + 11, 0.4, 0, illumina=True), E("J", s + 12, 0.4, 0)], "orders": "all", "threads": [1, 2],
+         "yaml_orders": 0, "modes": ["yaml"], "trace": False},
         # annotation-free mode (no combined tables, no known isoforms)
         {"id": "nogenedb", "world": s % 1000 + 4, "cfg": {"data_type": "pacbio", "genedb": False},
          "specs": [E("U", s + 7, 1.0, 1), E("V", s + 8, 0.0, 2)], "orders": "all", "threads": [1, 2], "yaml_orders": 1,
@@ -854,6 +1018,24 @@ def correspondence(ctx):
                 ctx.disagree("load_chr", c, mm, io)
             elif any(x not in ("noninformative", "dropped") for x in io):
                 ctx.mark_nontrivial(["load_chr", c])
+        # 3c. the description parsers
+        pcases = gen_parse_cases(ctx)
+        outs = ctx.driver.run([vlib.req("C10.parse_yaml", prefix=pf, entries=pl) if kind == "yaml"
+                               else vlib.req("C10.parse_list", prefix=pf, lines=pl) for kind, pf, pl in pcases])
+        for (kind, pf, pl), mo in zip(pcases, outs):
+            ctx.evaluations += 1
+            ctx.count("op:parse_" + kind)
+            if isinstance(mo, dict) and "driver_error" in mo:
+                ctx.disagree("parse_" + kind, {"kind": kind, "prefix": pf, "payload": pl}, mo, None)
+                continue
+            io = impl_parse(scratch, kind, pf, pl)
+            ctx.traces_validated += 1
+            if vlib.is_err(mo):
+                ctx.count("model_error")
+            if not vlib.same(mo, io):
+                ctx.disagree("parse_" + kind, {"kind": kind, "prefix": pf, "payload": pl}, mo, io)
+            elif not vlib.is_err(mo) and len(mo) > 1:
+                ctx.mark_nontrivial(["parse", kind, pl])
         # 4. combine_table
         tcases = gen_tables(ctx)
         outs = ctx.driver.run([vlib.req("C10.combine_table", full=f, tables=t) for f, t in tcases])
@@ -900,7 +1082,7 @@ def check_plan(ctx, plan, only=None):
         joint = [lab.job_history(only[0], only[1], cfg, only[2])]
     else:
         orders = plan_orders(plan, ctx.rng)
-        joint = [lab.job_history(o, t, cfg, "list") for o in orders for t in plan["threads"]]
+        joint = [lab.job_history(o, t, cfg, m) for m in plan.get("modes", ["list"]) for o in orders for t in plan["threads"]]
         joint += [lab.job_history(o, plan["threads"][-1], cfg, "yaml") for o in orders[:plan.get("yaml_orders", 0)]]
     singles = {n: lab.job_single(n, 1, cfg) for n in names}
     M.run_jobs(list(singles.values()) + joint)
@@ -989,6 +1171,10 @@ def oracle(ctx, disagreements, broken):
                 r = flag_property(ctx, (inp["preset"], inp["polya"], inp["read_group"], inp["samples"]))
                 if r:
                     ctx.fail(*r)
+            if d["op"] in ("parse_yaml", "parse_list") and isinstance(inp, dict):
+                r = parse_property(inp["kind"], inp["prefix"], inp["payload"])
+                if r:
+                    ctx.fail("parsed_sample_depends_on_other_entries", {"parse_case": [inp["kind"], inp["prefix"], inp["payload"]]}, r)
             if d["op"] == "combine_table" and isinstance(inp, dict):
                 r = combine_property(inp["full"], inp["tables"])
                 if r:
@@ -1007,6 +1193,12 @@ def oracle(ctx, disagreements, broken):
             if r and not (r[0] == KF_KIND and kf_seen):
                 ctx.fail(*r)
                 kf_seen = kf_seen or r[0] == KF_KIND
+        for kind, pf, pl in gen_parse_cases(ctx):
+            r = parse_property(kind, pf, pl)
+            ctx.count("oracle:descriptions")
+            if r:
+                ctx.fail("parsed_sample_depends_on_other_entries", {"parse_case": [kind, pf, pl]}, r)
+                break
         for f, t in gen_tables(ctx)[:40]:
             r = combine_property(f, t)
             ctx.count("oracle:combine_tables")
@@ -1034,6 +1226,8 @@ def replay(ctx, failure):
     try:
         if "flag_case" in inp:
             return flag_property(ctx, tuple(inp["flag_case"])) is not None
+        if "parse_case" in inp:
+            return parse_property(*inp["parse_case"]) is not None
         if "combine_case" in inp:
             return combine_property(inp["combine_case"][0], inp["combine_case"][1]) is not None
         plan = {"id": "replay_" + str(inp.get("plan")), "world": inp["world"], "chroms": inp.get("chroms", 2), "specs": inp["specs"],
